@@ -19,6 +19,11 @@ class HarnessError(Exception):
     """Raised for failures of the machinery itself (never reported as a property violation)."""
 
 
+class DiscardCase(Exception):
+    """The generator produced a case that is not a valid program of the supported subset (e.g. it does not import
+    under plain Python): the case is discarded and counted, it says nothing about dds."""
+
+
 def sha(*parts) -> str:
     h = hashlib.sha256()
     for p in parts:
@@ -147,6 +152,8 @@ def fork_call(fn, args=(), timeout=60.0):
         raise HarnessError(f"fork_call child died without result (status {status})")
     kind, val = pickle.loads(b"".join(chunks))
     if kind == "exc":
+        if val.startswith("DiscardCase:"):
+            raise DiscardCase(val.split("\n")[0])
         raise HarnessError("child raised: " + val)
     return val
 
